@@ -29,7 +29,7 @@ func defaultConfig() interp.Config {
 		},
 		InitAllow: []string{
 			modulePath, "internal/oserror", "io", "io/fs", "internal/bytealg*", "math/bits", "path", "path/filepath", "internal/filepathlite", "internal/stringslite",
-			"github.com/FollowTheProcess/collections", "github.com/bmatcuk/doublestar",
+			"github.com/FollowTheProcess/collections", "github.com/bmatcuk/doublestar", "github.com/juju/ansiterm/tabwriter",
 		},
 		Redirects: map[string]string{},
 	}
